@@ -15,6 +15,9 @@
      C07_output_dir_history_irrelevant, C07_all_ambient_reads_modelled: no dependence on clock/hash seed/output directory
      history; python target only up to the findings listed there).  The C12 check masks C07's known volatile lines.
    - env_wf e : no path is its own ancestor.
+   - links_safe e c : every target of c is not a symbolic link, or the gate refuses links (gate_refuses_links: a property of
+     the translated gate; false before design_notes/C12_symlink_fix.patch, see gate_links_dichotomy).  Links are part of env
+     (no run creates or retargets one; exists/is_dir/stat/chmod/open follow them).  links_clear e c : no target is a link.
    - compatible e c c' : what c needs as a directory is not a target of c', and vice versa (frozen directory skeleton);
      holds for all configurations of one namespace/language family by C11's targets_inside (paths = outdir ++ safe components,
      files end in an extension) -- stated, not derived, because C12's paths are opaque.
@@ -29,14 +32,14 @@ Open Scope N_scope.
    post-processors contain a SetFileMode (the command line always appends one: cli_setfilemode_last) leaves at every target
    the file a run into the empty directory leaves: same content id, requested mode.  Trigger excluded (see
    copy_into_directory_refuted): a directory sits where shutil.copy is about to write a support file. *)
-Theorem regen_equals_fresh : forall render e, render_independent render -> env_wf e -> forall h s0 c p,
+Theorem regen_equals_fresh : forall render e, render_independent render -> env_wf e -> forall h s0 c p, links_safe e c ->
   c_dryrun c = false -> c_filepps c <> [] ->
   snd (step render e (history render e s0 h) c) = Ok -> snd (step render e empty_fs c) = Ok -> In p (targets c) ->
   obs (fst (step render e (history render e s0 h) c) p) = obs (fst (step render e empty_fs c) p).
 Proof. exact RegenThm.regen_equals_fresh. Qed.
 Print Assumptions regen_equals_fresh.
 
-Theorem regen_canonical : forall render e, render_independent render -> env_wf e -> forall s c p,
+Theorem regen_canonical : forall render e, render_independent render -> env_wf e -> forall s c p, links_safe e c ->
   c_dryrun c = false -> c_filepps c <> [] ->
   snd (step render e s c) = Ok -> In p (targets c) ->
   obs (fst (step render e s c) p) = canonical render e c p.
@@ -44,7 +47,7 @@ Proof. exact RegenThm.canonical_any_state. Qed.
 Print Assumptions regen_canonical.
 
 (* the content half needs no SetFileMode; the target is a regular file *)
-Theorem regen_content_canonical : forall render e, render_independent render -> env_wf e -> forall s c p,
+Theorem regen_content_canonical : forall render e, render_independent render -> env_wf e -> forall s c p, links_safe e c ->
   c_dryrun c = false ->
   snd (step render e s c) = Ok -> In p (targets c) ->
   exists f, fst (step render e s c) p = Some f /\ f_isdir f = false /\ f_cid f = render empty_fs 0 (c_class c) p.
@@ -53,12 +56,12 @@ Print Assumptions regen_content_canonical.
 
 (* a directory at the path of ANY file to generate (type file, templated or copied support file) makes the run fail; it is
    never written into, replaced, chmod-ed (owner and kind kept; untouched altogether when it is not itself a target) *)
-Theorem directory_at_target_fails : forall render e, render_independent render -> env_wf e -> forall s c,
+Theorem directory_at_target_fails : forall render e, render_independent render -> env_wf e -> forall s c, links_safe e c ->
   c_dryrun c = false -> (exists p, In p (targets c) /\ fs_is_dir s p = true) -> snd (step render e s c) <> Ok.
 Proof. exact RegenThm.directory_at_target_fails. Qed.
 Print Assumptions directory_at_target_fails.
 
-Theorem directory_kept : forall render e, render_independent render -> env_wf e -> forall s ev q f,
+Theorem directory_kept : forall render e, render_independent render -> env_wf e -> forall s ev q f, links_safe e (ev_cfg ev) ->
   s q = Some f -> f_isdir f = true ->
   exists f', apply_event render e s ev q = Some f' /\ f_isdir f' = true /\ f_owned f' = f_owned f /\
              (~ In q (targets (ev_cfg ev)) -> f' = f).
@@ -73,7 +76,7 @@ Print Assumptions cli_setfilemode_last.
 (* ---- what a run can touch ------------------------------------------------------------------------------------------ *)
 (* every entry that differs after a run (successful or failed) is a target, or a directory above a target that did not
    exist and has been created *)
-Theorem written_in_footprint : forall render e, render_independent render -> env_wf e -> forall s c q,
+Theorem written_in_footprint : forall render e, render_independent render -> env_wf e -> forall s c q, links_safe e c ->
   fst (step render e s c) q <> s q ->
   In q (targets c) \/ (In q (dir_targets e c) /\ s q = None /\ fst (step render e s c) q = Some (new_dir e)).
 Proof. exact RegenThm.written_in_footprint. Qed.
@@ -100,13 +103,14 @@ Print Assumptions targets_distinct_from_c11.
 
 (* existing entries that are not targets keep content, mode, everything -- in every run, failed or not; a missing path stays
    missing unless it is a directory above a target *)
-Theorem foreign_untouched : forall render e, render_independent render -> env_wf e -> forall s c q,
+Theorem foreign_untouched : forall render e, render_independent render -> env_wf e -> forall s c q, links_safe e c ->
   ~ In q (targets c) -> (s q <> None \/ ~ In q (dir_targets e c)) ->
   fst (step render e s c) q = s q.
 Proof. exact RegenThm.foreign_untouched. Qed.
 Print Assumptions foreign_untouched.
 
 Theorem history_foreign : forall render e, render_independent render -> env_wf e -> forall h s q,
+  (forall ev, In ev h -> links_safe e (ev_cfg ev)) ->
   (forall ev, In ev h -> ~ In q (targets (ev_cfg ev))) ->
   (s q <> None \/ forall ev, In ev h -> ~ In q (dir_targets e (ev_cfg ev))) ->
   history render e s h q = s q.
@@ -114,6 +118,7 @@ Proof. exact RegenThm.history_foreign. Qed.
 Print Assumptions history_foreign.
 
 Theorem foreign_dirs_only : forall render e, render_independent render -> env_wf e -> forall h s q,
+  (forall ev, In ev h -> links_safe e (ev_cfg ev)) ->
   (forall ev, In ev h -> ~ In q (targets (ev_cfg ev))) ->
   history render e s h q = s q \/ (s q = None /\ history render e s h q = Some (new_dir e)).
 Proof. exact RegenThm.foreign_dirs_only. Qed.
@@ -127,18 +132,19 @@ Print Assumptions foreign_unconditional_refuted.
 
 (* ---- --no-overwrite ---------------------------------------------------------------------------------------------------- *)
 (* nothing that existed before the run changes (files and directories) *)
-Theorem no_overwrite_safe : forall render e, render_independent render -> env_wf e -> forall s c q,
+Theorem no_overwrite_safe : forall render e, render_independent render -> env_wf e -> forall s c q, links_safe e c ->
   c_allow c = false -> s q <> None -> fst (step render e s c) q = s q.
 Proof. exact RegenThm.no_overwrite_safe. Qed.
 Print Assumptions no_overwrite_safe.
 
 Theorem no_overwrite_safe_history : forall render e, render_independent render -> env_wf e -> forall h s0 q,
-  (forall ev, In ev h -> exists c, ev = Run c /\ c_allow c = false) -> s0 q <> None -> history render e s0 h q = s0 q.
+  (forall ev, In ev h -> exists c, ev = Run c /\ c_allow c = false /\ links_safe e c) -> s0 q <> None ->
+  history render e s0 h q = s0 q.
 Proof. exact RegenThm.no_overwrite_safe_history. Qed.
 Print Assumptions no_overwrite_safe_history.
 
 (* a conflict is never silently accepted *)
-Theorem no_overwrite_conflict_fails : forall render e, render_independent render -> env_wf e -> forall s c,
+Theorem no_overwrite_conflict_fails : forall render e, render_independent render -> env_wf e -> forall s c, links_safe e c ->
   c_dryrun c = false -> c_allow c = false ->
   (exists p, In p (targets c) /\ s p <> None) -> snd (step render e s c) <> Ok.
 Proof. exact RegenThm.no_overwrite_conflict_fails. Qed.
@@ -156,6 +162,7 @@ Print Assumptions dry_run_inert.
 Theorem regen_total_history : forall render e, render_independent render -> env_wf e -> forall h s0 c,
   chmodable e s0 -> (forall p, In p (targets c) -> ready e s0 p = true) ->
   compatible e c c -> (forall ev, In ev h -> compatible e c (ev_cfg ev)) ->
+  links_clear e c -> (forall ev, In ev h -> links_safe e (ev_cfg ev)) ->
   c_allow c = true -> c_dryrun c = false ->
   snd (step render e (history render e s0 h) c) = Ok.
 Proof. exact RegenThm.regen_total_history. Qed.
@@ -163,7 +170,7 @@ Print Assumptions regen_total_history.
 
 (* ---- crash points: an interrupted run (any prefix of the action list, possibly dying inside a write) -------------------- *)
 Theorem interrupted_then_rerun_equals_fresh : forall render e, render_independent render -> env_wf e ->
-  forall s c0 n j junk c p,
+  forall s c0 n j junk c p, links_safe e c ->
   c_dryrun c = false -> c_filepps c <> [] ->
   snd (step render e (step_crash render e s c0 n j junk) c) = Ok -> snd (step render e empty_fs c) = Ok -> In p (targets c) ->
   obs (fst (step render e (step_crash render e s c0 n j junk) c) p) = obs (fst (step render e empty_fs c) p).
@@ -171,17 +178,18 @@ Proof. intros render e Hi Hw s c0 n j junk. exact (RegenThm.regen_equals_fresh r
 Print Assumptions interrupted_then_rerun_equals_fresh.
 
 Theorem interrupted_then_rerun_succeeds : forall render e, render_independent render -> env_wf e -> forall s c n j junk,
-  chmodable e s -> (forall p, In p (targets c) -> ready e s p = true) -> compatible e c c ->
+  chmodable e s -> (forall p, In p (targets c) -> ready e s p = true) -> compatible e c c -> links_clear e c ->
   c_allow c = true -> c_dryrun c = false ->
   snd (step render e (step_crash render e s c n j junk) c) = Ok.
 Proof.
-  intros render e Hi Hw s c n j junk Hc Hr Hcc. apply (RegenThm.regen_total_history render e Hi Hw [Crash c n j junk] s c); auto.
-  intros ev [<-|[]]. exact Hcc.
+  intros render e Hi Hw s c n j junk Hc Hr Hcc Lc. apply (RegenThm.regen_total_history render e Hi Hw [Crash c n j junk] s c); auto.
+  - intros ev [<-|[]]. exact Hcc.
+  - intros ev [<-|[]]. now apply links_clear_safe.
 Qed.
 Print Assumptions interrupted_then_rerun_succeeds.
 
 Theorem interrupted_touches_only_footprint : forall render e, render_independent render -> env_wf e -> forall s c n j junk q,
-  ~ In q (targets c) -> (s q <> None \/ ~ In q (dir_targets e c)) ->
+  links_safe e c -> ~ In q (targets c) -> (s q <> None \/ ~ In q (dir_targets e c)) ->
   step_crash render e s c n j junk q = s q.
 Proof. intros render e Hi Hw s c n j junk. exact (RegenThm.foreign_event render e Hi Hw s (Crash c n j junk)). Qed.
 Print Assumptions interrupted_touches_only_footprint.
@@ -189,13 +197,13 @@ Print Assumptions interrupted_touches_only_footprint.
 (* --no-overwrite after a partial run: everything the crash left (including a truncated file) stays as it is, and if the
    crash left any target the run ends in an error instead of completing it *)
 Theorem no_overwrite_after_crash : forall render e, render_independent render -> env_wf e -> forall s c0 n j junk c,
-  c_allow c = false -> c_dryrun c = false ->
+  links_safe e c -> c_allow c = false -> c_dryrun c = false ->
   (forall q, step_crash render e s c0 n j junk q <> None ->
              fst (step render e (step_crash render e s c0 n j junk) c) q = step_crash render e s c0 n j junk q) /\
   ((exists p, In p (targets c) /\ step_crash render e s c0 n j junk p <> None) ->
    snd (step render e (step_crash render e s c0 n j junk) c) <> Ok).
 Proof.
-  intros render e Hi Hw s c0 n j junk c Ha Hd. split.
+  intros render e Hi Hw s c0 n j junk c Ls Ha Hd. split.
   - intros q. now apply RegenThm.no_overwrite_safe.
   - now apply (RegenThm.no_overwrite_conflict_fails render e Hi Hw).
 Qed.
@@ -207,13 +215,47 @@ Theorem same_gate : forall render e c p k, c_dryrun c = false ->
 Proof. exact RegenThm.same_gate. Qed.
 Print Assumptions same_gate.
 
+(* ---- symbolic links at targets (audit 2, G-C12-1) ------------------------------------------------------------------------ *)
+(* exactly one of the two regimes holds for the gate translated from /repo right now: *)
+Theorem gate_links_dichotomy : gate_refuses_links \/ link_quirk = true.
+Proof. exact RegenThm.gate_links_dichotomy. Qed.
+Print Assumptions gate_links_dichotomy.
+
+(* regime "quirk" (before the fix): the statements above are REFUTED when a target is a link.  (a) dangling link +
+   --no-overwrite: no conflict, success, file created at the destination, which is not a target; (b) live link to a foreign
+   read-only file, overwriting: the foreign file is rewritten *)
+Theorem dangling_link_no_overwrite_refuted : link_quirk = true ->
+  exists e s c p d, c_allow c = false /\ c_dryrun c = false /\ In p (targets c) /\ links e p = Some d /\
+    ~ In d (targets c) /\ s d = None /\ snd (step wit_render e s c) = Ok /\
+    obs (fst (step wit_render e s c) d) = Some (1070004, 292).
+Proof. exact RegenThm.dangling_link_no_overwrite_refuted. Qed.
+Print Assumptions dangling_link_no_overwrite_refuted.
+
+Theorem live_link_overwrite_refuted : link_quirk = true ->
+  exists e s c p d, c_allow c = true /\ c_dryrun c = false /\ In p (targets c) /\ links e p = Some d /\
+    ~ In d (targets c) /\ obs (s d) = Some (55, 292) /\ snd (step wit_render e s c) = Ok /\
+    obs (fst (step wit_render e s c) d) = Some (1070004, 292).
+Proof. exact RegenThm.live_link_overwrite_refuted. Qed.
+Print Assumptions live_link_overwrite_refuted.
+
+(* regime "refused" (after the fix): a link at a target makes the run fail, and links_safe holds for every configuration, so
+   all footprint / no-overwrite / canonical statements above hold for trees with arbitrary links *)
+Theorem symlink_at_target_fails : forall render e s c, gate_refuses_links ->
+  c_dryrun c = false -> (exists p, In p (targets c) /\ links e p <> None) -> snd (step render e s c) <> Ok.
+Proof. exact RegenThm.symlink_at_target_fails. Qed.
+Print Assumptions symlink_at_target_fails.
+
+Theorem links_safe_when_refused : forall e c, gate_refuses_links -> links_safe e c.
+Proof. intros e c H p _. now right. Qed.
+Print Assumptions links_safe_when_refused.
+
 (* ---- non-vacuity ------------------------------------------------------------------------------------------------------- *)
 Example ex_render_independent : render_independent wit_render.
 Proof. intros s a s' a' cl p. reflexivity. Qed.
 Print Assumptions ex_render_independent.
 
 Example ex_env_wf : env_wf (wit_env false).
-Proof. intros p. unfold wit_env; cbn [ancestors]. destruct (N.eqb_spec p 2) as [->|]; [cbn; intuition discriminate|].
+Proof. intros p. unfold wit_env; cbn [ancestors]; unfold wit_anc. destruct (N.eqb_spec p 2) as [->|]; [cbn; intuition discriminate|].
   destruct (N.eqb_spec p 3) as [->|]; [cbn; intuition discriminate|]. destruct (N.eqb_spec p 4) as [->|]; cbn; intuition discriminate. Qed.
 Print Assumptions ex_env_wf.
 
